@@ -81,6 +81,30 @@ SEEDS = {
            "integer index into a multi-chunk interleaved segment (the interleaved reader fetches all remaining chunks at once)"),
  "C20-2": ("C20", "read_metadata closes the index stream whether or not the reader opened it (as C20-1)",
            "caller-supplied index stream"),
+ "C01-3": ("C01", "TdmsSegmentObject caches the numpy dtype (with byte order) when its raw data index is parsed and read_values ignores its endianness argument",
+           "file mixing byte orders between segments where a later segment reuses the index ('same as before' or no metadata): values byte-swapped"),
+ "C02-3": ("C02", "read_segment_objects reuses the previous segment's path index whenever the object lists have the same length",
+           "a new object list of the same length with channels reordered or replaced, read lazily"),
+ "C03-3": ("C03", "TimestampDataReceiver.append_data positional structured assignment (third independent find of this change)",
+           "big-endian timestamp channel, raw_timestamps=True"),
+ "C05-3": ("C05", "_array_equal compares blocks with slice(offset, chunk_size) (stop taken for a length): only the first 100 entries are compared",
+           "> 100 data segments, two channels whose offset indexes agree on the first 100 entries and differ later; the second channel read inherits the first one's index"),
+ "C06-3": ("C06", "_compute_final_chunk_lengths gives every channel min(number_values, remainder // size) and keeps partial-value bytes in the remainder",
+           "contiguous file cut inside a value of a wider channel followed by a narrower one"),
+ "C08-3": ("C08", "types.String.__init__ writes len(value) (characters) as the length prefix of the UTF-8 bytes",
+           "non-ASCII character in an object name, property name or string property value"),
+ "C09-3": ("C09", "_read_lead_in clamps a truncated segment's end to max(data file size, data position)",
+           "data file shorter than the index describes, cut before a later segment's raw data: phantom segments from the index are accepted"),
+ "C10-3": ("C10", "NumpyDataReceiver.append_data adopts a chunk that fills the whole receiver (as C14-2)",
+           "big-endian source whose channel arrives in one chunk: defragment writes the big-endian bytes into a little-endian segment"),
+ "C11-3": ("C11", "get_daqmx_final_chunk_lengths without the early exit (fourth independent find)",
+           "truncated DAQmx chunk, buffers of different width"),
+ "C14-3": ("C14", "LinearScaling.scale returns its input for slope 1, intercept 0 (as C14-1)",
+           "identity Linear scale on non-float64 raw data"),
+ "C15-3": ("C15", "TdmsSegmentObject caches the dtype with the byte order of the segment that stated the index (as C01-3)",
+           "mixed byte orders with an index carried over from a segment of the other order"),
+ "C19-3": ("C19", "chunk size of a channel in a segment taken from a shared helper that no longer checks has_data",
+           "interleaved or DAQmx segment that lists the channel with a 'no data' index between two segments of a window: the whole segment is fetched"),
  "C20-1": ("C20", "read_metadata closes the index stream whether or not the reader opened it",
            "a caller-supplied stream holding a .tdms_index (TDSh) file"),
 }
